@@ -29,3 +29,16 @@ theorem typeStep_eq_table (st : TState) (s : Stmt) : typeStep st s = typeStepT h
   | _ => cases last <;> rfl
 
 end Grip.Props.C01.Lemmas
+
+namespace Grip.Props.C01.Lemmas
+open Grip
+
+/-- `typeStepT` consults its table through `find` only. -/
+theorem typeStepT_congr (t1 t2 : TypingTable) (h : ∀ k v, t1.find k v = t2.find k v)
+    (st : TState) (s : Stmt) : typeStepT t1 st s = typeStepT t2 st s := by
+  unfold typeStepT
+  rw [h]
+
+theorem Variant.mem_all (v : Variant) : v ∈ Variant.all := by cases v <;> simp [Variant.all]
+
+end Grip.Props.C01.Lemmas
